@@ -22,6 +22,7 @@ from __future__ import annotations
 import collections
 import copy
 import json  # noqa: F401
+import os
 import pickle
 import random
 import sys
@@ -1002,7 +1003,87 @@ def run_faultsweep(sv, index, bound):
     return res
 
 
+# ---------------------------------------------------------------------------
+# process restart: pickled compiled selectors are the durable state; the next incarnation has another hash seed
+# ---------------------------------------------------------------------------
+
+def run_restart(sv, run_seed, bound, workload=None, hashseed=None, protocol=None):
+    import base64
+    import shutil
+    import subprocess
+    import tempfile
+    rng = random.Random(run_seed)
+    if workload is None:
+        keys = gen_keys(rng, rng.randint(4, 10), debug_bias=0.0)
+        workload = {'mode': 'restart', 'keys': keys, 'programs': [[{'op': 'compile', 'key': k} for k in range(len(keys))]],
+                    'faults': [], 'stdout_faults': []}
+        hashseed = 1 + rng.randrange(4000)
+        protocol = rng.randint(0, pickle.HIGHEST_PROTOCOL)
+    keys = workload['keys']
+    items = []
+    old_stdout = sys.stdout
+    sys.stdout = SimStdout()   # DEBUG-flag keys print while they are compiled
+    try:
+        for k, key in enumerate(keys):
+            try:
+                obj = sv.compile(key['pattern'], **key_call_args(key))
+                items.append({'k': k, 'key': key,
+                              'pickle': base64.b64encode(pickle.dumps(obj, protocol=protocol)).decode()})
+            except Exception:  # noqa: BLE001 - invalid keys have nothing durable
+                continue
+    finally:
+        sys.stdout = old_stdout
+    violation = None
+    outcome = None
+    if items:
+        scratch = tempfile.mkdtemp(prefix='c15r-')
+        try:
+            jp, rp = os.path.join(scratch, 'job.json'), os.path.join(scratch, 'res.json')
+            with open(jp, 'w') as f:
+                json.dump({'repo': env.REPO, 'verif': os.path.dirname(os.path.dirname(os.path.abspath(__file__))),
+                           'items': items}, f)
+            e = {k: v for k, v in os.environ.items() if not k.startswith(('COVERAGE', 'PYTHON'))}
+            e['PYTHONHASHSEED'] = str(hashseed)
+            e['PYTHONDONTWRITEBYTECODE'] = '1'
+            e['VERIF_REPO'] = env.REPO
+            p = subprocess.run(['/venv/bin/python', os.path.join(os.path.dirname(os.path.abspath(__file__)),
+                                                                  'c15_restart_driver.py'), jp, rp],
+                               capture_output=True, text=True, env=e, timeout=120, cwd=scratch)
+            if os.path.exists(rp):
+                outcome = json.load(open(rp))['items']
+            else:
+                violation = {'oracle': '4-copy', 'how': 'restart', 'detail': 'the restarted interpreter could not load the '
+                             'pickled selectors', 'stderr': (p.stderr or '')[-600:]}
+        finally:
+            shutil.rmtree(scratch, ignore_errors=True)
+    if outcome is not None:
+        for rec in outcome:
+            bad = [n for n in ('eq', 'hash', 'in_set', 'parts_hash', 'select', 'repickle') if rec.get(n) is False]
+            if rec.get('ne') is True:
+                bad.append('ne')
+            if rec.get('load_error') or rec.get('error'):
+                bad.append('error')
+            if bad:
+                violation = {'oracle': '4-copy', 'how': 'restart', 'key': rec['k'], 'pattern': keys[rec['k']]['pattern'],
+                             'failed': bad, 'record': rec,
+                             'detail': 'a compiled selector pickled before a process restart (other hash seed) is no longer '
+                                       'an equal, hash-equal value after it'}
+                break
+    digest = fp.h((workload['keys'], hashseed, protocol, outcome, violation), 12)
+    return {
+        'violation': violation, 'digest': digest, 'segments': [], 'policy': {'name': 'restart'}, 'steps': 0, 'switches': 0,
+        'probes': {'fault:restart(other hash seed)': 1, 'restart_objects': len(items)}, 'nobjs': len(items),
+        'nops': len(keys) + 1, 'sig': fp.h(('restart', [r.get('k') for r in (outcome or [])], protocol)), 'overlap': False,
+        'sim_probes': {}, 'stdout_writes': 0, 'faults_fired': [], 'stdout_fired': [], 'workload': workload, 'bound': bound,
+        'pairs_seed': 0, 'restart': {'hashseed': hashseed, 'protocol': protocol},
+    }
+
+
 def run_seeded(sv, run_seed, mode, bound, index=None):
+    if mode == 'restart':
+        res = run_restart(sv, run_seed, bound)
+        res['run_seed'] = run_seed
+        return res
     if mode == 'faultsweep':
         res = run_faultsweep(sv, index or 0, bound)
         res['run_seed'] = run_seed
@@ -1025,6 +1106,9 @@ def run_seeded(sv, run_seed, mode, bound, index=None):
 
 
 def replay(sv, rec):
+    if rec.get('restart'):
+        return run_restart(sv, rec.get('run_seed') or 0, rec.get('bound'), rec['workload'], rec['restart']['hashseed'],
+                           rec['restart']['protocol'])
     spec = None
     if rec.get('segments'):
         spec = {'name': 'replay', 'segments': rec['segments']}
@@ -1059,6 +1143,9 @@ def plan(tier):
     add('concurrent', 3, 500, 25)
     add('concurrent', 500, 300, 25)
     add('big', 500, 32, 2)
+    # process restart: compiled selectors pickled by one incarnation, loaded by the next (another hash seed)
+    cfgs.append({'name': 'restart-k500', 'mode': 'restart', 'bound': 500, 'chunk': 10,
+                 'nruns': 160 if tier != 'thorough' else 3000})
     # systematic single-fault sweep of one compile (exception at every step, failing stdout at every write): the
     # thorough tier covers every step of the 14 catalogue compiles, the quick tier every ~6th
     cfgs.append({'name': 'faultsweep-k3', 'mode': 'faultsweep', 'bound': 3, 'chunk': 7,
@@ -1078,6 +1165,7 @@ def make_record(res, cfg=None, index=None):
         'segments': res['segments'],
         'faults': res['workload'].get('faults', []),
         'faultsweep': res.get('faultsweep'),
+        'restart': res.get('restart'),
         'faults_fired': res.get('faults_fired'),
         'stdout_faults_fired': res.get('stdout_fired'),
         'policy': {k: v for k, v in (res.get('policy') or {}).items() if k != 'segments'},
@@ -1136,7 +1224,7 @@ def _one_run(sv, verif_seed, cfg, i, nsamples):
         agg.count('probe:' + k, v)
     p = res['probes']
     nontrivial = (
-        p.get('eviction', 0) > 0 or p.get('fault:exc@step', 0) > 0 or p.get('fault:stdout-fail', 0) > 0 or
+        p.get('restart_objects', 0) > 0 or p.get('eviction', 0) > 0 or p.get('fault:exc@step', 0) > 0 or p.get('fault:stdout-fail', 0) > 0 or
         p.get('fault:recursion', 0) > 0 or res['overlap'] or p.get('purge_during_inflight_compile', 0) > 0
     )
     if nontrivial:
@@ -1206,6 +1294,11 @@ def describe(rec):
     lines = ['oracle ' + v['oracle'] + ': ' + _short_json({k: v[k] for k in v if k != 'oracle'})]
     for t, prog in enumerate(w['programs']):
         lines.append(f'thread {t}: ' + '; '.join(_op_str(w, o) for o in prog[:30]) + (' ...' if len(prog) > 30 else ''))
+    if rec.get('restart'):
+        lines.append(f"process restart: selectors pickled with protocol {rec['restart']['protocol']} under PYTHONHASHSEED=0, "
+                     f"loaded by a fresh interpreter under PYTHONHASHSEED={rec['restart']['hashseed']}")
+        for k, key in enumerate(w['keys']):
+            lines.append(f'  key {k}: ' + json.dumps(_key_brief(key)))
     if w.get('faults'):
         lines.append('faults (thread, op, step, exception): ' + json.dumps(w['faults']))
     if w.get('stdout_faults'):
